@@ -33,7 +33,7 @@ LIVE = "sensor_level >= 0"
 
 def site(rng, k):
     """A fold site: returns dict(kind, decl(var form), use_lit, use_var, var, mutate(value-change line), finding keys)."""
-    kinds = ["sleep", "brightness", "blink", "len-str", "len-list", "flash-pattern", "glyph", "rgb", "fade", "ultra-model", "servo-bounds", "range-count", "expr-fold"]
+    kinds = ["sleep", "brightness", "blink", "len-str", "len-list", "flash-pattern", "glyph", "rgb", "fade", "ultra-model", "servo-bounds", "range-count", "expr-fold", "const-arith"]
     kind = kinds[k % len(kinds)]
     v = f"v{k}"
     if kind == "sleep":
@@ -72,6 +72,17 @@ def site(rng, k):
     if kind == "range-count":
         a, b = rng.choice([(3, 1), (2, 4)])
         return dict(kind=kind, var=v, decl=f"{v} = {a}", lit=f"for q{k} in range({a}):\n    mon.write(q{k})", use=f"for q{k} in range({v}):\n    mon.write(q{k})", expr=f"for q{k} in range({a} + 0):\n    mon.write(q{k})", mut=f"{v} = {b}", mut_lit=f"for q{k} in range({b}):\n    mon.write(q{k})")
+    if kind == "const-arith":
+        # name-free arithmetic in folded argument positions: the baked literal must be what Python computes
+        exprs = ["1000 + (-250 // 3)", "250 // -4 + 100", "(-7) % 3 + 10", "7 % -3 + 10", "2 ** 5", "3 << 2", "-17 // 5 + 20", "int(7 / 2) + 1",
+                 "abs(-9 // 2)", "max(3, -10 // 3) + 4", "min(100, 2 ** 7)", "100 - (-1) ** 3", "int(-3.5) + 10", "round(0) + 5" if False else "17 // 3 * 3 + 17 % 3",
+                 "(10 - 25) // 4 + 30", "-(-9 // 2)", "255 & 0x0F | 16", "1 if -1 // 2 == -1 else 200"]
+        e = rng.choice(exprs)
+        val = eval(e)
+        site_fn = rng.choice(["sleep({})", "led.set_brightness({})", "led.blink({}, times=1)", "rgb.set_color({}, 1, 2)"])
+        lit = site_fn.replace("{}", str(val))
+        use = site_fn.replace("{}", e)
+        return dict(kind=kind, var=v, decl=f"{v} = 0", lit=lit, use=use, expr=use, mut=None, mut_lit=None)
     a, b = rng.choice([(7, 3), (12, 5)])
     return dict(kind="expr-fold", var=v, decl=f"{v} = {a}", lit=f"mon.write({a} * 2 + 1)\nw{k} = {a} * 2 + 1\nmon.write(w{k})", use=f"mon.write({v} * 2 + 1)\nw{k} = {v} * 2 + 1\nmon.write(w{k})", expr=f"mon.write({a * 2 + 1})\nw{k} = {a * 2 + 1}\nmon.write(w{k})", mut=f"{v} = {b}", mut_lit=f"mon.write({b} * 2 + 1)\nw{k} = {b} * 2 + 1\nmon.write(w{k})")
 
@@ -107,6 +118,8 @@ def make_pair(rng, idx):
     elif tr == "delit-expr":
         P = place([], s["lit"].splitlines())
         Q = place([], s["expr"].splitlines())
+        if s["kind"] == "const-arith" and any(op in s["expr"] for op in ("**",)):
+            finding = "KF-pow"
     elif tr == "dead-branch":
         P = place([s["decl"]], s["use"].splitlines())
         Q = place([s["decl"], f"if {DEAD}:", indent(s["mut"])], s["use"].splitlines())
